@@ -263,12 +263,13 @@ pub fn replay(args: &[String]) {
     let records = arg_required(args, "--records");
     let bash = PathBuf::from(arg_value(args, "--bash").unwrap_or_else(|| "/bin/bash".into()));
     let items: Vec<(u64, Value)> = vectors.into_iter().enumerate().map(|(i, v)| (v.get("id").and_then(|x| x.as_u64()).unwrap_or(i as u64 + 1), v)).collect();
-    let results = run_guarded_par(items, Duration::from_secs(120), threads(), move |(id, v): &(u64, Value)| one(*id, v, &bash));
+    let results = run_guarded_par_retry(items, Duration::from_secs(120), threads(), move |(id, v): &(u64, Value)| one(*id, v, &bash));
     let mut w = NdjsonWriter::create(&records);
     for r in results {
         match r {
             Guarded::Ok(rec) => w.write(&rec),
-            _ => tool_error("shell harness worker failed"),
+            Guarded::Panic(m) => tool_error(&format!("shell harness worker failed twice (panic: {m})")),
+            Guarded::Hang => tool_error("shell harness worker failed twice (no result within the limit)"),
         }
     }
     w.finish();
